@@ -75,6 +75,12 @@ pub struct DocReport {
 /// Run clean once and judge C02 / C03 / C04 / C14 plus decision events.
 pub fn doc_check(rd: &Rendered, sp: &Sp, cfg: &Cfg, step: u8) -> DocReport {
     let res = api::call_clean(&rd.text, sp, cfg);
+    doc_judge(rd, step, res)
+}
+
+/// The four verdicts for one observed result of cleaning `rd` (from the library call or from the
+/// binary; the latter comes without hook events).
+pub fn doc_judge(rd: &Rendered, step: u8, res: Result<(String, Vec<Event>), PanicInfo>) -> DocReport {
     let ext = extents(rd, step);
     let n_ready = rd.elems.iter().filter(|e| e.ready(step)).count();
     let mut rep = DocReport {
